@@ -405,12 +405,6 @@ def apply_contract(ex, contract: Contract, fobj, args, kwargs, constructing=None
     if cname == "__normal__":
         if constructing is not None:
             result = args[0]
-            for fname, kind in contract.fresh_fields.items():
-                if isinstance(kind, tuple) and kind[0] == "bytesn":
-                    val = SBytes.view(Base(fname), 0, kind[1])
-                else:
-                    val = ex.bm.loops.fresh(kind, fname)
-                st.rec(result)["fields"][fname] = val
         else:
             binds = False
             for lab, text in contract.ensures:
@@ -419,6 +413,14 @@ def apply_contract(ex, contract: Contract, fobj, args, kwargs, constructing=None
                         and isinstance(n.left, ast.Name) and n.left.id == "result":
                     binds = True
             result = None if binds else fresh_result(ex, contract)
+        if isinstance(result, Ref) and result.kind == "obj" and contract.fresh_fields:
+            st.rec(result)["open"] = True
+            for fname, kind in contract.fresh_fields.items():
+                if isinstance(kind, tuple) and kind[0] == "bytesn":
+                    val = SBytes.view(Base(fname), 0, kind[1])
+                else:
+                    val = ex.bm.loops.fresh(kind, fname)
+                st.rec(result)["fields"][fname] = val
         cfr.env["result"] = result
         for lab, text in contract.ensures:
             for n in ast.walk(parse_expr(text)):
@@ -431,8 +433,9 @@ def apply_contract(ex, contract: Contract, fobj, args, kwargs, constructing=None
             if tgt is not None and tgt in bound:
                 rest.append(text)
                 continue
-            if bind_clause(ex, text, cfr):
-                if tgt is not None:
+            r = bind_clause(ex, text, cfr)
+            if r:
+                if tgt is not None and r != "vacuous":
                     bound.add(tgt)
             else:
                 rest.append(text)
@@ -522,11 +525,11 @@ def bind_clause(ex, text, cfr):
     if isinstance(node, ast.Call) and isinstance(node.func, ast.Name) and node.func.id == "implies" \
             and len(node.args) == 2:
         c = ex.bm.truth(_eval_clause(ex, ast.unparse(node.args[0]), cfr))
-        if c is True:
+        if bind_target(ast.unparse(node.args[1])) is None:
+            return False
+        if ex.st.branch(c):  # symbolic antecedent: case split, then the consequent defines the location
             return bind_clause(ex, ast.unparse(node.args[1]), cfr)
-        if c is False:
-            return True
-        return False
+        return "vacuous"
     if isinstance(node, ast.Compare) and len(node.ops) == 1 and isinstance(node.ops[0], ast.Is) \
             and isinstance(node.comparators[0], ast.Constant) and node.comparators[0].value is None:
         node = ast.Compare(left=node.left, ops=[ast.Eq()], comparators=[ast.Constant(value=None)])
@@ -553,7 +556,7 @@ def bind_clause(ex, text, cfr):
 
 
 # ------------------------------------------------------------------------------------ lemmas
-def verify_lemma(reg, name, module_name, params, requires, goal, collector, setup=None, max_paths=5000):
+def verify_lemma(reg, name, module_name, params, requires, goal, collector, setup=None, max_paths=5000, allow=()):
     """prove a clause over real functions (used by contract or body per registry policy) and spec functions"""
     mod = extract.load_module(module_name)[0]
     fres = FunctionResult(name)
@@ -587,9 +590,13 @@ def verify_lemma(reg, name, module_name, params, requires, goal, collector, setu
                              assume_after=False)
                 fres.outcomes["evaluated"] = fres.outcomes.get("evaluated", 0) + 1
             except PyRaise as pr:
-                st.prove(name, False, kind="lemma", detail=f"evaluating the lemma raised {pr.exc.cls.__name__}",
-                         assume_after=False)
-                fres.outcomes["raised"] = fres.outcomes.get("raised", 0) + 1
+                if any(c.__name__ in allow for c in pr.exc.cls.__mro__):
+                    # the lemma is conditional on the call returning; a declared rejection makes this path vacuous
+                    fres.outcomes["rejected"] = fres.outcomes.get("rejected", 0) + 1
+                else:
+                    st.prove(name, False, kind="lemma", detail=f"evaluating the lemma raised {pr.exc.cls.__name__}",
+                             assume_after=False)
+                    fres.outcomes["raised"] = fres.outcomes.get("raised", 0) + 1
         except PathEnd:
             pass
         except Unsupported as u:
